@@ -789,6 +789,73 @@ pub fn conc_engine(seed: u64, flavour: u64) -> ConcCase {
     }
 }
 
+/// C20 at the Handler level: every thread sends whole requests through the real Handler
+/// (QueryJob::execute); a statement - bulk insert, bulk delete, conditional delete, update, rule
+/// registration - is one operation and must be observed entirely or not at all.
+/// mode 0 ("visibility"): a conditional statement only races with readers and with inserts of
+/// tuples its condition cannot match; explicit-tuple statements race freely.
+/// mode 1 ("conflicting conditional writers"): conditional statements race with other writers of
+/// the tuples they match (their condition is evaluated on a snapshot and applied later).
+pub fn conc_handler(seed: u64, mode: u64) -> ConcCase {
+    let mut rc = Rng::new(seed, P_CFG);
+    let mut rw = Rng::new(seed, P_WORK);
+    let kg = "default".to_string();
+    let rel = "r".to_string();
+    let h64 = |a: i64, b: i64| -> T { vec![V::I64(a), V::I64(b)] };
+    let base: Vec<T> = (1..=4).map(|i| h64(i, i % 3)).collect();
+    let mut setup = vec![COp::Insert { kg: kg.clone(), rel: rel.clone(), tuples: base.clone() }];
+    if rw.chance(1, 3) {
+        setup.push(COp::RegisterRule { kg: kg.clone(), text: "d(X, Y) <- r(X, Y)".into() });
+    }
+    let nthreads = rw.range(2, 3) as usize;
+    // mode 0: at most one thread issues conditional statements and then nobody deletes stored tuples
+    let cond_thread: Option<usize> = if mode == 1 { None } else if rw.chance(1, 2) { Some(rw.below(nthreads as u64) as usize) } else { Some(usize::MAX) };
+    let mut threads = Vec::new();
+    let mut fresh = 100i64;
+    for tid in 0..nthreads {
+        let reader = tid > 0 && rw.chance(1, 2) && cond_thread != Some(tid);
+        let n = rw.range(1, 3) as usize;
+        let mut ops = Vec::new();
+        for _ in 0..n {
+            if reader {
+                ops.push(COp::Query { kg: kg.clone(), rel: if rw.chance(1, 4) { "d".into() } else { rel.clone() }, arity: 2 });
+                continue;
+            }
+            let conditional_here = mode == 1 || cond_thread == Some(tid);
+            let conditional_somewhere = mode == 0 && cond_thread.is_some_and(|t| t != usize::MAX);
+            let cmps: &[&str] = if mode == 1 { &["<", ">", ">="] } else { &["<", "<=", "="] };
+            match rw.below(12) {
+                0..=2 => {
+                    let k = rw.range(2, 3);
+                    let tuples: Vec<T> = (0..k)
+                        .map(|_| {
+                            fresh += 1;
+                            h64(fresh, tid as i64)
+                        })
+                        .collect();
+                    ops.push(COp::Insert { kg: kg.clone(), rel: rel.clone(), tuples });
+                }
+                3..=5 if !conditional_somewhere => {
+                    // bulk delete statement: two or three stored tuples at once
+                    let k = rw.range(2, 3) as usize;
+                    let start = rw.below(3) as usize;
+                    let tuples: Vec<T> = (0..k).map(|j| base[(start + j) % base.len()].clone()).collect();
+                    ops.push(COp::Delete { kg: kg.clone(), rel: rel.clone(), tuples });
+                }
+                6..=7 if conditional_here => ops.push(COp::CondDelete { kg: kg.clone(), rel: rel.clone(), col: 0, cmp: rw.pick(cmps).to_string(), k: rw.range(2, 3) as i64 }),
+                8..=9 if conditional_here => ops.push(COp::Update { kg: kg.clone(), rel: rel.clone(), col: 0, cmp: rw.pick(cmps).to_string(), k: rw.range(2, 3) as i64, add: 10 }),
+                10 => ops.push(COp::RegisterRule { kg: kg.clone(), text: "d(X, Y) <- r(X, Y)".into() }),
+                _ => ops.push(COp::Query { kg: kg.clone(), rel: rel.clone(), arity: 2 }),
+            }
+        }
+        threads.push(ops);
+    }
+    let mut cfg = swarm_cfg(&mut rc, true);
+    cfg.num_threads = 1;
+    let mut rs = Rng::new(seed, 9);
+    ConcCase { seed, cfg, level: "handler".into(), setup, threads, sched: Some(gen_sched(&mut rs, nthreads)), sched_seed: rs.next(), ..Default::default() }
+}
+
 // ------------------------------------------------------------------------------------------ HSC
 
 use crate::hsc::{tuple_lit, Effect, HCase, HOp, SEffect};
